@@ -416,3 +416,6 @@ PROPS["C12"]["text"] += " Two configurations with an inhibit time run once more 
 PROPS["C18"]["jobs"]["quick"] += [J("c18", c, depth=6, deadline=60, opts={"nostart": 1}) for c in (0, 1)]
 PROPS["C18"]["jobs"]["thorough"] += [J("c18", c, depth=8, deadline=600, max_states=20000000, opts={"nostart": 1}) for c in (0, 1, 2)]
 PROPS["C18"]["text"] += " Two configurations run once more on a node that is initialised but not started (nostart=1): LSS is served there, the application resets the communication through the API (CONmtReset) before and after CONodeStart, and the stored configuration has to be the active one after each reset - shown by Node.NodeId before the start and by the boot-up message at CONodeStart."
+PROPS["C16"]["jobs"]["quick"] += [J("c16", 7, depth=8, deadline=120)]
+PROPS["C16"]["jobs"]["thorough"] += [J("c16", 7, depth=12, deadline=600, max_states=12000000)]
+PROPS["C16"]["text"] += " An eighth configuration leaves the node initialised but not started with the producer configured: time passes, nothing may be produced before CONodeStart, afterwards the schedule is the reference one."
